@@ -176,7 +176,17 @@ def match_known(known, cond, params, args):
     return None
 
 
-def run_pool(module, tier, builds, wrap_dir, tasks, on_result):
+def wall_cap(tier):
+    """Wall-clock limit of one check (seconds): shards not started before it are reported as inconclusive
+    ('not started'), shards started near it get the remaining time as their budget.  Quick conditions are
+    sized to finish far below it; it bounds the thorough tier, whose shard budgets are caps."""
+    v = os.environ.get("VERIF_WALL_CAP_S")
+    if v:
+        return float(v)
+    return 1800.0 if tier == "quick" else 1500.0
+
+
+def run_pool(module, tier, builds, wrap_dir, tasks, on_result, deadline=None):
     """tasks: list of dicts with 'build' in {'P','C'}; runs them on NCPU workers."""
     qs = {}
     for t in tasks:
@@ -205,6 +215,17 @@ def run_pool(module, tier, builds, wrap_dir, tasks, on_result):
                     t = qs[b].get_nowait()
                 except queue.Empty:
                     break
+                if deadline is not None:
+                    left = deadline - time.time()
+                    if left < 20 and not t.get("twin"):
+                        with lock:
+                            on_result({"id": t["id"], "verdict": "unknown", "cond": t["cond"], "shard": t["shard"],
+                                       "build": b, "paths": 0, "z3_checks": 0, "z3_time": 0, "wit": {},
+                                       "digests": [], "wall_s": 0,
+                                       "detail": "not started: the wall-clock limit of this tier was reached"})
+                        continue
+                    if float(t.get("budget", 60)) > left:
+                        t = dict(t, budget=max(20, int(left)))
                 wall = float(t.get("budget", 60)) * 1.5 + 90
                 r = w.run(t, wall)
                 r["build"] = b
@@ -262,9 +283,16 @@ def check_property(pid, tier, module=None, level="other", assumptions=(), explan
             import random
             random.Random(seed).shuffle(tasks)
         else:
-            tasks.sort(key=lambda t: (-float(t["budget"]), t["id"]))
+            # vacuity twins first, then round-robin over the conditions (shard k of every condition before shard
+            # k+1 of any), so that a wall-clock limit cuts every condition evenly
+            rank = {}
+            for t in tasks:
+                key = (t["cond"], t["build"], bool(t.get("twin")))
+                rank[t["id"]] = (key, sum(1 for k in rank.values() if k[0] == key))
+            tasks.sort(key=lambda t: (not t.get("twin"), rank[t["id"]][1], t["id"]))
         results = []
-        run_pool(module, tier, builds, wrap_dir, tasks, results.append)
+        deadline = t_start + wall_cap(tier)
+        run_pool(module, tier, builds, wrap_dir, tasks, results.append, deadline)
 
         known = load_known(pid)
         # --- triage counterexamples -------------------------------------------------
